@@ -102,3 +102,55 @@ Theorem gen_io_tables_correct :
   gen_pio_keys = io_keys /\ gen_io_sep = colon_sp /\
   gen_pio_fields = [bs "read_count"; bs "write_count"; bs "read_bytes"; bs "write_bytes"; bs "read_chars"; bs "write_chars"].
 Proof. repeat split; vm_compute; reflexivity. Qed.
+
+(* ------------------------------------------------ the kernel keeps what the mode depends on
+   [k_open_flags] clears bits 6..9 and 19 and sets bits 15 (and 19): bits 0, 1 (access mode)
+   and 10 (O_APPEND) are those of the open(2) request, so the mode string computed from the
+   kernel's word describes how the file was opened. *)
+Lemma testbit_k_open_flags req c n :
+  0 <= n -> n <> 6 -> n <> 7 -> n <> 8 -> n <> 9 -> n <> 15 -> n <> 19 ->
+  Z.testbit (k_open_flags req c) n = Z.testbit req n.
+Proof.
+  intros Hn H6 H7 H8 H9 H15 H19. unfold k_open_flags, creation_mask, O_LARGEFILE, O_CLOEXEC.
+  assert (T960 : Z.testbit 960 n = false).
+  { change 960 with (Z.lor (Z.lor (2 ^ 6) (2 ^ 7)) (Z.lor (2 ^ 8) (2 ^ 9))).
+    rewrite !Z.lor_spec, !Z.pow2_bits_eqb by lia.
+    repeat match goal with |- context [Z.eqb ?a ?b] => destruct (Z.eqb_spec a b); [lia|] end. reflexivity. }
+  assert (TL : Z.testbit 32768 n = false).
+  { change 32768 with (2 ^ 15). rewrite Z.pow2_bits_eqb by lia. destruct (Z.eqb_spec 15 n); [lia|reflexivity]. }
+  assert (TC : Z.testbit 524288 n = false).
+  { change 524288 with (2 ^ 19). rewrite Z.pow2_bits_eqb by lia. destruct (Z.eqb_spec 19 n); [lia|reflexivity]. }
+  destruct c; rewrite ?Z.lor_spec, !Z.ldiff_spec, ?T960, ?TL, ?TC; cbn [negb andb orb];
+    now rewrite ?andb_true_r, ?orb_false_r.
+Qed.
+
+Lemma k_open_flags_nonneg req c : 0 <= req -> 0 <= k_open_flags req c.
+Proof.
+  intros H. unfold k_open_flags.
+  assert (0 <= Z.lor (Z.ldiff (Z.ldiff req creation_mask) O_CLOEXEC) O_LARGEFILE).
+  { apply Z.lor_nonneg. split; [|unfold O_LARGEFILE; lia].
+    apply Z.ldiff_nonneg. left. apply Z.ldiff_nonneg. now left. }
+  destruct c; [apply Z.lor_nonneg; split; [assumption|unfold O_CLOEXEC; lia]|assumption].
+Qed.
+
+Lemma mod4_bits a b : 0 <= a -> 0 <= b ->
+  Z.testbit a 0 = Z.testbit b 0 -> Z.testbit a 1 = Z.testbit b 1 -> a mod 4 = b mod 4.
+Proof.
+  intros Ha Hb H0 H1. change 4 with (2 ^ 2). rewrite <- !Z.land_ones by lia.
+  apply Z.bits_inj'. intros n Hn. rewrite !Z.land_spec.
+  destruct (Z.eq_dec n 0) as [->|N0]; [now rewrite H0|].
+  destruct (Z.eq_dec n 1) as [->|N1]; [now rewrite H1|].
+  rewrite Z.ones_spec_high by lia. now rewrite !andb_false_r.
+Qed.
+
+Theorem kernel_keeps_mode : forall req c, 0 <= req ->
+  spec_mode (k_open_flags req c) = spec_mode req.
+Proof.
+  intros req c Hr. pose proof (k_open_flags_nonneg req c Hr) as Hk.
+  unfold spec_mode.
+  assert (M : k_open_flags req c mod 4 = req mod 4).
+  { apply mod4_bits; auto; apply testbit_k_open_flags; lia. }
+  assert (A : Z.odd (k_open_flags req c / 2 ^ 10) = Z.odd (req / 2 ^ 10)).
+  { rewrite <- !testbit_odd_div by lia. apply testbit_k_open_flags; lia. }
+  rewrite M. change 1024 with (2 ^ 10) in *. now rewrite A.
+Qed.
